@@ -52,7 +52,8 @@ Record istate := mkistate {
   is_nreg : nat;                            (* length of signalEnumRegistry *)
   is_sig_enums : list (key * Z);            (* signalEnums: key -> index into is_enums *)
   is_ext_muxes : list (key * dextmux);
-  is_sigmap : list (key * (nat * Z)) }.     (* signals: key -> (message position, signal id) *)
+  is_sigmap : list (key * (nat * Z));       (* signals: key -> (message position, signal id) *)
+  is_enum_refs : list Z }.                  (* one entry per NewEnumSignal: the enum it references *)
 
 (* importComments *)
 Definition import_comments (cs : list dcomment) : (string * istate) :=
@@ -60,26 +61,29 @@ Definition import_comments (cs : list dcomment) : (string * istate) :=
     match cm_kind c with
     | OGeneral => (cm_text c, st)
     | ONode => (bdesc, mkistate ((cm_node c, cm_text c) :: is_node_desc st) (is_msg_desc st) (is_sig_desc st)
-                        (is_enums st) (is_nreg st) (is_sig_enums st) (is_ext_muxes st) (is_sigmap st))
+                        (is_enums st) (is_nreg st) (is_sig_enums st) (is_ext_muxes st) (is_sigmap st) (is_enum_refs st))
     | OMessage => (bdesc, mkistate (is_node_desc st) ((cm_msg c, cm_text c) :: is_msg_desc st) (is_sig_desc st)
-                        (is_enums st) (is_nreg st) (is_sig_enums st) (is_ext_muxes st) (is_sigmap st))
+                        (is_enums st) (is_nreg st) (is_sig_enums st) (is_ext_muxes st) (is_sigmap st) (is_enum_refs st))
     | OSignal => (bdesc, mkistate (is_node_desc st) (is_msg_desc st) (((cm_msg c, cm_sig c), cm_text c) :: is_sig_desc st)
-                        (is_enums st) (is_nreg st) (is_sig_enums st) (is_ext_muxes st) (is_sigmap st))
+                        (is_enums st) (is_nreg st) (is_sig_enums st) (is_ext_muxes st) (is_sigmap st) (is_enum_refs st))
     | OEnvVar => (bdesc, st)
-    end) cs (EmptyString, mkistate [] [] [] [] O [] [] []).
+    end) cs (EmptyString, mkistate [] [] [] [] O [] [] [] []).
 
 Definition set_enums (st : istate) (es : list enum_def) (nreg : nat) : istate :=
   mkistate (is_node_desc st) (is_msg_desc st) (is_sig_desc st) es nreg
-           (is_sig_enums st) (is_ext_muxes st) (is_sigmap st).
+           (is_sig_enums st) (is_ext_muxes st) (is_sigmap st) (is_enum_refs st).
 Definition set_sig_enums (st : istate) (se : list (key * Z)) : istate :=
   mkistate (is_node_desc st) (is_msg_desc st) (is_sig_desc st) (is_enums st) (is_nreg st)
-           se (is_ext_muxes st) (is_sigmap st).
+           se (is_ext_muxes st) (is_sigmap st) (is_enum_refs st).
 Definition set_ext_muxes (st : istate) (em : list (key * dextmux)) : istate :=
   mkistate (is_node_desc st) (is_msg_desc st) (is_sig_desc st) (is_enums st) (is_nreg st)
-           (is_sig_enums st) em (is_sigmap st).
+           (is_sig_enums st) em (is_sigmap st) (is_enum_refs st).
 Definition set_sigmap (st : istate) (sm : list (key * (nat * Z))) : istate :=
   mkistate (is_node_desc st) (is_msg_desc st) (is_sig_desc st) (is_enums st) (is_nreg st)
-           (is_sig_enums st) (is_ext_muxes st) sm.
+           (is_sig_enums st) (is_ext_muxes st) sm (is_enum_refs st).
+Definition add_enum_ref (st : istate) (e : Z) : istate :=
+  mkistate (is_node_desc st) (is_msg_desc st) (is_sig_desc st) (is_enums st) (is_nreg st)
+           (is_sig_enums st) (is_ext_muxes st) (is_sigmap st) (e :: is_enum_refs st).
 
 (* NewSignalEnum + AddValue for each value (index unique, then name unique; maxIndex updated) *)
 Fixpoint enum_add_values (e : enum_def) (vs : list (Z * string)) : result enum_def :=
@@ -180,12 +184,10 @@ Definition place (s : signal) (rel : Z) (parent : option Z) (groups : list Z) : 
 (* a detached signal with everything below it *)
 Definition subtree := (signal * list signal)%type.
 
-(* importSignalType + NewStandardSignal + unit *)
+(* importSignalType + NewStandardSignal + unit.  The flag type is used exactly when the file's
+   factor, offset and range are the flag's (1, 0, [0,1]), so it carries the file's values too. *)
 Definition import_standard (id : Z) (ds : dsignal) : result signal :=
-  if (ds_size ds =? 1) && negb (ds_signed ds) then
-    Ok (mksignal id (ds_name ds) KStandard 0 None [] 1 false fl_one fl_zero fl_zero fl_one
-                 (ds_unit ds) 0 0 0 EmptyString fl_zero 0 [])
-  else if ds_size ds <=? 0 then Err "signal size is zero"
+  if ds_size ds <=? 0 then Err "signal size is zero"
   else
     Ok (mksignal id (ds_name ds) KStandard 0 None [] (ds_size ds) (ds_signed ds)
                  (ds_factor ds) (ds_offset ds) (ds_min ds) (ds_max ds)
@@ -197,15 +199,24 @@ Definition import_signal (st : istate) (mpos : nat) (msgid : Z) (id : Z) (ds : d
   let k := (msgid, ds_name ds) in
   do sst <-
     match lookup key_eqb k (is_sig_enums st) with
-    | Some ei =>
-        let e := nth_enum (is_enums st) ei in
-        let st1 := if enum_size e <? ds_size ds
-                   then set_enums st (replace_nth (Z.to_nat ei)
-                                        (mkenum (en_name e) (en_values e) (en_maxindex e) (ds_size ds))
-                                        (is_enums st)) (is_nreg st)
+    | Some ei0 =>
+        (* an enum already referenced by a signal of another size is cloned for this signal *)
+        let e0 := nth_enum (is_enums st) ei0 in
+        let shared := mem_z ei0 (is_enum_refs st) && negb (enum_size e0 =? ds_size ds) in
+        let ei := if shared then Z.of_nat (length (is_enums st)) else ei0 in
+        let st0 := if shared
+                   then set_enums st (is_enums st ++ [mkenum (en_name e0) (en_values e0) (en_maxindex e0) 1]) (is_nreg st)
                    else st in
+        let e := nth_enum (is_enums st0) ei in
+        let st1 := if enum_size e <? ds_size ds
+                   then set_enums st0 (replace_nth (Z.to_nat ei)
+                                        (mkenum (en_name e) (en_values e) (en_maxindex e) (ds_size ds))
+                                        (is_enums st0)) (is_nreg st0)
+                   else st0 in
+        if enum_size (nth_enum (is_enums st1) ei) >? ds_size ds then Err "value description does not fit in the signal"
+        else
         Ok (mksignal id (ds_name ds) KEnum 0 None [] 0 false fl_one fl_zero fl_zero fl_zero
-                     EmptyString ei 0 0 EmptyString fl_zero 0 [], st1)
+                     EmptyString ei 0 0 EmptyString fl_zero 0 [], add_enum_ref st1 ei)
     | None => do s <- import_standard id ds; Ok (s, st)
     end;
   let '(s, st1) := sst in
@@ -318,7 +329,7 @@ Definition mstate := (istate * list signal)%type.
 Definition import_message_signals (st : istate) (mpos : nat) (dm : dmessage)
   : result (istate * list signal) :=
   let msgid := dm_id dm in
-  let isigs := index_from 0 (sort_by (fun a b => ds_start a <? ds_start b) (dm_signals dm)) in
+  let isigs := index_from 0 (sort_by (fun a b => get_start_bit a <? get_start_bit b) (dm_signals dm)) in
   let muxes := filter (fun p => ds_muxor (snd p)) isigs in
   let top_insert (acc : mstate) (t : subtree) (start : Z) : result mstate :=
       let '(st0, sigs) := acc in
@@ -334,7 +345,7 @@ Definition import_message_signals (st : istate) (mpos : nat) (dm : dmessage)
          the last multiplexed start, become its children *)
       do r1 <- fold_left (fun acc '(id, ds) =>
                  do (st0, muxed, stds, last) <- acc;
-                 if String.eqb (ds_name ds) (ds_name dmx) then Ok (st0, muxed, stds, last) else
+                 if id =? mid then Ok (st0, muxed, stds, last) else
                  do (s, st1) <- import_signal st0 mpos msgid id ds;
                  let sp := get_start_bit ds in
                  if ds_muxed ds
@@ -360,7 +371,7 @@ Definition import_message_signals (st : istate) (mpos : nat) (dm : dmessage)
       let mux_idx (nm : string) : option nat := lookup String.eqb nm mux_names in
       do r1 <- fold_left (fun acc '(id, ds) =>
                  do (ms, groups) <- acc;
-                 match mux_idx (ds_name ds) with Some _ => Ok (ms, groups) | None =>
+                 if ds_muxor ds then Ok (ms, groups) else
                  do (s, st1) <- import_signal (fst ms) mpos msgid id ds;
                  if ds_muxed ds then
                    match lookup key_eqb (msgid, ds_name ds) (is_ext_muxes st1) with
@@ -371,8 +382,7 @@ Definition import_message_signals (st : istate) (mpos : nat) (dm : dmessage)
                        | Some mi => Ok ((st1, snd ms), app_nth mi ((s, []), ds) groups)
                        end
                    end
-                 else do ms' <- top_insert (st1, snd ms) (s, []) (get_start_bit ds); Ok (ms', groups)
-                 end)
+                 else do ms' <- top_insert (st1, snd ms) (s, []) (get_start_bit ds); Ok (ms', groups))
                isigs (Ok ((st, []), repeat [] nmux));
       (* for j := muxSigCount-1 .. 0 *)
       do r2 <- fold_left (fun acc j =>
@@ -397,7 +407,7 @@ Definition import_message (acc : istate * list message) (nodes : list node) (dm 
   let '(st, msgs) := acc in
   let mpos := length msgs in
   let desc := match lookup Z.eqb (dm_id dm) (is_msg_desc st) with Some d => d | None => EmptyString end in
-  let sorted := sort_by (fun a b => ds_start a <? ds_start b) (dm_signals dm) in
+  let sorted := sort_by (fun a b => get_start_bit a <? get_start_bit b) (dm_signals dm) in
   let order := match sorted with [] => LittleEndian | s :: _ => ds_order s end in
   if negb (forallb (fun s => bo_eqb (ds_order s) order) sorted) then Err "byte order differs within the message"
   else
@@ -427,13 +437,20 @@ Definition new_float_attr (d mn mx : fl) : result attr_def :=
   else if fl_ltb d mn then Err "default lower than min"
   else Ok (DefFloat d mn mx).
 
+(* getAttributeDefaultInt / getAttributeDefaultFloat: the number is read from the slot the
+   parser filled (integer, hex or decimal token), whatever the type of the attribute *)
+Definition default_int (df : dattrdef) : Z :=
+  match ad_type df with VHex => ad_hex df | VFloat => fl_trunc (ad_fl df) | _ => ad_int df end.
+Definition default_float (df : dattrdef) : fl :=
+  match ad_type df with VInt => fl_of_Z (ad_int df) | VHex => fl_of_Z (ad_hex df) | _ => ad_fl df end.
+
 (* one attribute definition (the switch of importAttributes) *)
 Definition import_attr_def (a : dattr) (df : dattrdef) : result attr_def :=
   match at_type a with
   | AString => Ok (DefString (ad_str df))
-  | AInt => new_int_attr (ad_int df) (at_min_int a) (at_max_int a) false
-  | AHex => new_int_attr (ad_hex df) (at_min_hex a) (at_max_hex a) true
-  | AFloat => new_float_attr (ad_fl df) (at_min_fl a) (at_max_fl a)
+  | AInt => new_int_attr (default_int df) (at_min_int a) (at_max_int a) false
+  | AHex => new_int_attr (default_int df) (at_min_hex a) (at_max_hex a) true
+  | AFloat => new_float_attr (default_float df) (at_min_fl a) (at_max_fl a)
   | AEnum => match at_enum a with
              | [] => Err "enum attribute without values"
              | v :: _ => Ok (DefEnum v (dedup_str [] (at_enum a)))
